@@ -124,7 +124,7 @@ def r_step(inputs, params, obligation):
         'allocation_bounded_by_limits': any(n < 0 or n > 255 * ms for n in allocs),
         'no_interpreter_level_failure': r[0] == 'raise' and isinstance(r[1], (MemoryError, RecursionError, SystemError,
                                                                                AssertionError)),
-        'no_silent_drop': False,
+        'no_silent_drop': res['drops'] > 0,
     }
     return {'reproduced': bool(bad.get(obligation)), 'outcome': repr(r)[:200], 'allocs': allocs[:5],
             'max_items': mi, 'max_item_size': ms, 'stack_lens': [len(x) for x in items]}
